@@ -23,3 +23,19 @@ Proof.
     destruct (N.eq_dec ann 0) as [->|Hn]; [left; reflexivity|right].
     destruct (Hann Hn) as [Hnz Hle]. rewrite eff_max_id in Hf by (destruct Hl; lia). lia.
 Qed.
+
+(* both directions at once: after negotiating from ANY pair of configured maxima, EVERY message either
+   side sends is complete and stays within what the other side announced *)
+Lemma both_directions_within (own_r own_a : N) (cmd data : bytes) (pc : N) :
+  NegotiationProofs.legal_max own_r -> NegotiationProofs.legal_max own_a ->
+  let n := negotiate own_r own_a in
+  (exists cs ds, dimse_encode cmd data pc (lim_r n) = Ok (cs ++ ds)
+     /\ concat_payload cs = cmd /\ concat_payload ds = data
+     /\ Forall (fun f => ann_a n = 0 \/ frag_pdu_length f <= ann_a n) (cs ++ ds))
+  /\ (exists cs ds, dimse_encode cmd data pc (lim_a n) = Ok (cs ++ ds)
+     /\ concat_payload cs = cmd /\ concat_payload ds = data
+     /\ Forall (fun f => ann_r n = 0 \/ frag_pdu_length f <= ann_r n) (cs ++ ds)).
+Proof.
+  intros Hr Ha n. destruct (negotiate_spec own_r own_a Hr Ha) as [_ [_ [_ [H1 [H2 [L1 L2]]]]]].
+  split; apply every_message_within; assumption.
+Qed.
